@@ -150,3 +150,16 @@ package dnsutil
 //@ func SetEDE
 //@   requires msg != nil
 //@   modifies heap(dns.OPT.Option), allelems(dns.EDNS0)
+
+//@ # ---- C03: the canonical spelling of a name is what the library's unpacker produces for the wire form the library's
+//@ # packer gives the text; no other route to a result, and no result when either step refuses
+//@ func CanonicalPresentation
+//@   abstract
+//@   nosafety all pre
+//@   assert at call github.com/miekg/dns.PackDomainName#1: arg0 == lastret("github.com/miekg/dns.Fqdn") && arg2 == 0 && !arg4
+//@   assert at call github.com/miekg/dns.Fqdn#1: arg0 == name
+//@   assert at call github.com/miekg/dns.UnpackDomainName#1: lastret("github.com/miekg/dns.PackDomainName", 1) == nil && arg1 == 0 && len(arg0) == lastret("github.com/miekg/dns.PackDomainName")
+//@   assert at return#3: result1 && result0 == lastret("github.com/miekg/dns.UnpackDomainName") && lastret("github.com/miekg/dns.UnpackDomainName", 2) == nil
+//@   assert at return#1: !result1
+//@   assert at return#2: !result1
+
